@@ -128,8 +128,8 @@ fn perr(e: &JumbfParseError) -> String {
 }
 
 fn err_json(e: &c2pa::Error) -> Value {
-    let mut d = format!("{e}");
-    d.truncate(160);
+    // by characters: the message may contain multi-byte replacement characters (String::truncate panics off a boundary)
+    let d: String = format!("{e}").chars().take(160).collect();
     json!({"r": "err", "kind": err_class(e), "detail": d})
 }
 
